@@ -29,11 +29,16 @@ def K3 (s : St) : Prop :=
 
 /-- cancellation only grows -/
 def CancMono (s s' : St) : Prop :=
-  InstsExt s s' ∧ (∀ c, s.croots.contains c = true → s'.croots.contains c = true)
+  (∀ (n : Nat) (x : Inst), s.insts[n]? = some x →
+    ∃ x' : Inst, s'.insts[n]? = some x' ∧ x'.root = x.root ∧ (x.cancelled = true → x'.cancelled = true)) ∧
+  (∀ c, s.croots.contains c = true → s'.croots.contains c = true)
 
-theorem CancMono.refl (s : St) : CancMono s s := ⟨InstsExt.refl s, fun _ h => h⟩
-theorem CancMono.trans {a b c : St} (h1 : CancMono a b) (h2 : CancMono b c) : CancMono a c :=
-  ⟨h1.1.trans h2.1, fun x h => h2.2 x (h1.2 x h)⟩
+theorem CancMono.of_ext {s s' : St} (h : InstsExt s s')
+    (h2 : ∀ c, s.croots.contains c = true → s'.croots.contains c = true) : CancMono s s' := by
+  refine ⟨?_, h2⟩
+  intro n x hx
+  obtain ⟨y, hy, hle⟩ := h n x hx
+  exact ⟨y, hy, hle.2.2.1, hle.2.2.2.2.2.2⟩
 
 theorem CancMono.isCancelled {s s' : St} (h : CancMono s s') (n : Nat) (x x' : Inst)
     (hx : s.insts[n]? = some x) (hx' : s'.insts[n]? = some x') (hc : s.isCancelled x = true) :
@@ -42,8 +47,8 @@ theorem CancMono.isCancelled {s s' : St} (h : CancMono s s') (n : Nat) (x x' : I
   rw [hx'] at hy; cases hy
   simp only [St.isCancelled, Bool.or_eq_true] at hc ⊢
   rcases hc with hc | hc
-  · exact Or.inl (hle.2.2.2.2.2.2 hc)
-  · right; rw [hle.2.2.1]; exact h.2 _ hc
+  · exact Or.inl (hle.2 hc)
+  · right; rw [hle.1]; exact h.2 _ hc
 
 theorem CancMono.at {s s' : St} (h : CancMono s s') (n : Nat) (hc : cancelledAt s n) : cancelledAt s' n := by
   obtain ⟨x, hx, hc⟩ := hc
@@ -51,7 +56,7 @@ theorem CancMono.at {s s' : St} (h : CancMono s s') (n : Nat) (hc : cancelledAt 
   exact ⟨y, hy, h.isCancelled n x y hx hy hc⟩
 
 theorem cancMono_cancelInst (s : St) (n : Nat) : CancMono s (cancelInst s n) :=
-  ⟨instsExt_cancelInst s n, by intro c h; unfold cancelInst; split <;> exact h⟩
+  CancMono.of_ext (instsExt_cancelInst s n) (by intro c h; unfold cancelInst; split <;> exact h)
 
 @[simp] theorem cancelInst_croots (s : St) (n : Nat) : (cancelInst s n).croots = s.croots := by
   unfold cancelInst; split <;> rfl
@@ -71,7 +76,7 @@ theorem cancMono_cancelInst (s : St) (n : Nat) : CancMono s (cancelInst s n) :=
   · rfl
 
 theorem cancMono_cancelOpt (s : St) (o : Option Nat) : CancMono s (cancelOpt s o) :=
-  ⟨instsExt_cancelOpt s o, by intro c h; simpa using h⟩
+  CancMono.of_ext (instsExt_cancelOpt s o) (by intro c h; simpa using h)
 
 /-- cancelling an existing instance cancels it -/
 theorem cancelledAt_cancelInst (s : St) (n : Nat) (h : n < s.insts.length) : cancelledAt (cancelInst s n) n := by
@@ -105,7 +110,7 @@ theorem curInst_none {s : St} (h1 : s.routine = none) : curInst s = none ∧ cur
   simp [curInst, curCancel, curRec, h1]
 
 theorem cancMono_of_eq {s s' : St} (h1 : s'.insts = s.insts) (h2 : s'.croots = s.croots) : CancMono s s' :=
-  ⟨InstsExt.of_eq h1, by intro c h; rw [h2]; exact h⟩
+  CancMono.of_ext (InstsExt.of_eq h1) (by intro c h; rw [h2]; exact h)
 
 theorem cancelledAt_of_eq {s s' : St} (h1 : s'.insts = s.insts) (h2 : s'.croots = s.croots) (n : Nat)
     (h : cancelledAt s n) : cancelledAt s' n := (cancMono_of_eq h1 h2).at n h
@@ -143,7 +148,7 @@ theorem cancelled_after_cancelOf {s : St} (h : Cur0 s) (ha : AllRec s) (r : Nat)
   · exact (cancMono_cancelOpt s x.cancelOf).at n e
 
 theorem stopRec_cancMono (s : St) (r : Nat) : CancMono s (stopRec s r) := by
-  refine ⟨instsExt_stopRec s r, ?_⟩
+  refine CancMono.of_ext (instsExt_stopRec s r) ?_
   intro c h
   unfold stopRec; split
   · simpa using h
@@ -192,7 +197,7 @@ theorem K3.keep {s s' : St} (h : K3 s) (hm : CancMono s s') (hlen : s'.insts.len
       | false => rfl
       | true => have := hm.isCancelled n x x' hx hx' hcx; rw [this] at hlive; cases hlive
     have := h n x hn hx this
-    rw [hctx, hle.2.2.1]; exact this
+    rw [hctx, hle.1]; exact this
 
 theorem get_set_self {α : Type} {l : List α} {i : Nat} (v : α) (h : i < l.length) : (l.set i v)[i]? = some v := by
   simp [h]
@@ -309,7 +314,7 @@ theorem cur_cancel_clear {s : St} (h : Cur s) (ha : AllRec s) (r : Nat) (x y : R
     refine ⟨?_, by intro c hc; rw [hT2]; exact hc⟩
     intro n z hz
     obtain ⟨z', g1, g2⟩ := instsExt_cancelOpt s x.cancelOf n z hz
-    exact ⟨z', by rw [hT1]; exact g1, g2⟩
+    exact ⟨z', by rw [hT1]; exact g1, g2.2.2.1, g2.2.2.2.2.2.2⟩
   have hlen : T.insts.length = s.insts.length := by rw [hT1]; simp
   have hcur : curInst T = curInst s := by rw [hcT.1, hcs.1, hy1]
   refine ⟨h.1.keep hm hlen (Or.inl hcur) ?_, h.2.keep hm hlen hcur hT5⟩
@@ -389,7 +394,7 @@ theorem cur_detachPrev {s : St} (h : Cur s) (ha : AllRec s) :
       refine ⟨?_, by intro c hc; simpa using hc⟩
       intro n z hz
       obtain ⟨z', g1, g2⟩ := instsExt_cancelOpt s x.cancelOf n z hz
-      exact ⟨z', by rw [e]; exact g1, g2⟩
+      exact ⟨z', by rw [e]; exact g1, g2.2.2.1, g2.2.2.2.2.2.2⟩
     refine h.1.keep hm (by rw [e]; simp) (Or.inr ⟨hnone.1, ?_⟩) (by intro n hn; rw [hnone.1] at hn; cases hn)
     intro n hn
     obtain ⟨z, hz, hcz⟩ := cancelled_after_cancelOf h.1 ha r x hr hx n (by rw [← (curInst_of hr hx).1]; exact hn)
@@ -437,5 +442,341 @@ theorem cur_setRoutineLocked {s : St} (h : Cur s) (ha : AllRec s) (f arg : Nat) 
   · split
     · exact cur_bcast hd
     · exact hd
+
+/-- states that agree on everything the invariant looks at -/
+theorem Cur.frame {s s' : St} (h : Cur s) (h1 : s'.insts = s.insts) (h2 : s'.croots = s.croots)
+    (h3 : s'.routine = s.routine) (h4 : s'.recs = s.recs) (h5 : s'.ctx = s.ctx) : Cur s' := by
+  have hc : curInst s' = curInst s ∧ curCancel s' = curCancel s := by
+    simp [curInst, curCancel, curRec, h3, h4]
+  exact ⟨h.1.frame h1 h2 hc.1 hc.2, h.2.keep (cancMono_of_eq h1 h2) (by rw [h1]) hc.1 h5⟩
+
+theorem cur_updateStateRoutine {s : St} (h : Cur s) (ha : AllRec s) : Cur (updateStateRoutine s).1 := by
+  simp only [updateStateRoutine]; exact cur_setRoutineLocked h ha _ _
+
+theorem cur_setStateCS {s : St} (h : Cur s) (ha : AllRec s) (cmp v : Nat) : Cur (setStateCS s cmp v).1 := by
+  simp only [setStateCS]
+  split
+  · dsimp only
+    exact cur_updateStateRoutine (s := { s with sval := v }) (h.frame rfl rfl rfl rfl rfl)
+      (ha.of_eq rfl (InstsExt.of_eq rfl))
+  · exact h
+
+theorem cur_apiCS {s : St} (h : Cur s) (ha : AllRec s) (cf : Cfg) (op : Op) (r : St × Res × Option Nat)
+    (hr : apiCS s cf op = some r) : Cur r.1 := by
+  cases op with
+  | setContext c restart => simp [apiCS] at hr; subst hr; exact cur_setContextCS h ha c restart
+  | setRoutine f =>
+    simp only [apiCS] at hr
+    split at hr
+    · cases hr
+    · simp at hr; subst hr; exact cur_setRoutineLocked h ha f 0
+  | restart => simp [apiCS] at hr; subst hr; exact cur_restartCS h ha
+  | setState v =>
+    simp only [apiCS] at hr
+    split at hr
+    · cases hr
+    · simp at hr; subst hr; exact cur_setStateCS h ha cf.cmp v
+  | setStateRoutine f =>
+    simp only [apiCS] at hr
+    split at hr
+    · cases hr
+    · simp at hr; subst hr
+      dsimp only
+      exact cur_updateStateRoutine (s := { s with sfn := f }) (h.frame rfl rfl rfl rfl rfl)
+        (ha.of_eq rfl (InstsExt.of_eq rfl))
+  | swap k =>
+    simp only [apiCS] at hr
+    split at hr
+    · cases hr
+    · split at hr
+      · split at hr
+        · simp only [Option.some.injEq] at hr; subst hr; exact cur_setStateCS h ha cf.cmp _
+        · simp only [Option.some.injEq] at hr; subst hr; exact h
+      · simp at hr; subst hr; exact h
+  | getState =>
+    simp only [apiCS] at hr
+    split at hr
+    · cases hr
+    · simp at hr; subst hr; exact h
+  | waitExited _ => simp [apiCS] at hr
+
+theorem cur_timerBody {s : St} (h : Cur s) (ha : AllRec s) (r : Nat) : Cur (timerBody s r) := by
+  simp only [timerBody]
+  apply cur_bcast
+  split
+  · rename_i x hx
+    split
+    · rename_i hc
+      simp only [Bool.and_eq_true] at hc
+      have hr : s.routine = some r := by simpa using hc.1.2
+      have hc0 : s.ctx ≠ 0 := by simpa using hc.1.1
+      exact cur_startRec h.1 ha h.2 r s.ctx x.exitedCh true hr rfl hc0
+    · exact h
+  · exact h
+
+/-- an instance moves (program counter, result, recorded flag; possibly its own `cancel()`) -/
+theorem cur_setInst {s : St} (h : Cur s) (n : Nat) (x y : Inst) (hx : s.insts[n]? = some x)
+    (hroot : y.root = x.root) (hc : x.cancelled = true → y.cancelled = true) : Cur (setInst s n y) := by
+  have hm : CancMono s (setInst s n y) := by
+    refine ⟨?_, fun _ h => h⟩
+    intro m z hz
+    by_cases hnm : n = m
+    · subst hnm; rw [hx] at hz; cases hz
+      exact ⟨y, by simp [setInst, get_lt hx], hroot, hc⟩
+    · exact ⟨z, by simp [setInst, List.getElem?_set, hnm, hz], rfl, id⟩
+  have hci : curInst (setInst s n y) = curInst s ∧ curCancel (setInst s n y) = curCancel s := by
+    simp [curInst, curCancel, curRec, setInst]
+  refine ⟨h.1.keep hm (by simp [setInst]) (Or.inl hci.1) ?_, h.2.keep hm (by simp [setInst]) hci.1 rfl⟩
+  intro m hm'
+  rw [hci.1] at hm'
+  rcases h.1.k1 m hm' with e | e
+  · exact Or.inl (hci.2 ▸ e)
+  · exact Or.inr (hm.at m e)
+
+theorem cur_recordCS {s s' : St} (h : Cur s) (cf : Cfg) (n : Nat) (x : Inst) (dur : Bool)
+    (hx : s.insts[n]? = some x) (hs : recordCS s cf n x dur = some s') : Cur s' := by
+  have h1 := cur_setInst h n x { x with recorded := true } hx rfl id
+  simp only [recordCS] at hs
+  split at hs
+  · cases hs
+  · rename_i r hr
+    split at hs
+    · split at hs
+      · cases hs
+      · simp only [Option.some.injEq] at hs; subst hs
+        apply cur_bcast
+        have hrlt : x.rid < s.recs.length := get_lt hr
+        -- the record keeps its current instance and cancel function
+        have key : ∀ (S T : St) (y : Rec), Cur S → S.recs = s.recs → S.routine = s.routine → T.insts = S.insts →
+            T.croots = S.croots → T.routine = S.routine → T.ctx = S.ctx → T.recs = S.recs.set x.rid y →
+            y.rctx = r.rctx → y.cancelOf = r.cancelOf → Cur T := by
+          intro S T y hS e1 e2 e3 e4 e5 e6 e7 e8 e9
+          have hc : curInst T = curInst S ∧ curCancel T = curCancel S := by
+            cases hrt : s.routine with
+            | none => simp [curInst, curCancel, curRec, e5, e2, hrt]
+            | some q =>
+              by_cases hq : x.rid = q
+              · subst hq
+                simp [curInst, curCancel, curRec, e5, e2, hrt, e7, e1, get_set_self _ hrlt, hr, e8, e9]
+              · simp [curInst, curCancel, curRec, e5, e2, hrt, e7, e1, List.getElem?_set, hq]
+          exact ⟨hS.1.frame e3 e4 hc.1 hc.2, hS.2.keep (cancMono_of_eq e3 e4) (by rw [e3]) hc.1 e6⟩
+        by_cases hret : cf.retry = true
+        · simp only [hret, if_true]
+          have h2 : Cur (killTimer (setInst s n { x with recorded := true }) r.retry) :=
+            h1.frame (by simp) (by simp) (by simp) (by simp) (by simp)
+          exact key _ _ _ h2 (by simp [setInst]) (by simp [setInst]) rfl rfl rfl rfl rfl rfl rfl
+        · have hret' : cf.retry = false := by simpa using hret
+          simp only [hret', Bool.false_eq_true, if_false]
+          exact key _ _ _ h1 rfl rfl rfl rfl rfl rfl rfl rfl rfl
+    · split at hs
+      · cases hs
+      · simp only [Option.some.injEq] at hs; subst hs; exact h1
+
+theorem cur_envCancel {s : St} (h : Cur s) (c : Nat) : Cur { s with croots := c :: s.croots } := by
+  have hm : CancMono s { s with croots := c :: s.croots } := by
+    refine ⟨fun n x hx => ⟨x, hx, rfl, id⟩, ?_⟩
+    intro d hd
+    simp only [List.contains_cons, Bool.or_eq_true]
+    exact Or.inr hd
+  have hci : curInst { s with croots := c :: s.croots } = curInst s ∧
+      curCancel { s with croots := c :: s.croots } = curCancel s := ⟨rfl, rfl⟩
+  refine ⟨h.1.keep hm rfl (Or.inl hci.1) ?_, h.2.keep hm rfl hci.1 rfl⟩
+  intro m hm'
+  rcases h.1.k1 m hm' with e | e
+  · exact Or.inl e
+  · exact Or.inr (hm.at m e)
+
+theorem cur_init : Cur {} := by
+  refine ⟨⟨?_, ?_⟩, ?_⟩
+  · intro n x hx; simp at hx
+  · intro n hn; simp [curInst, curRec] at hn
+  · intro n x hn; simp [curInst, curRec] at hn
+
+/-- the C05 invariant is kept by every event -/
+theorem step_cur (s s' : St) (e : Ev) (h : Cur s) (ha : AllRec s) (hs : step s e = some s') : Cur s' := by
+  cases e with
+  | cfg c =>
+    simp only [step, stepI] at hs
+    split at hs
+    · simp at hs; subst hs; exact h.frame rfl rfl rfl rfl rfl
+    · cases hs
+  | inv a op =>
+    simp only [step, stepI] at hs
+    split at hs
+    · simp at hs; subst hs; exact h.frame rfl rfl rfl rfl rfl
+    · cases hs
+  | cs a =>
+    simp only [step, stepI] at hs
+    split at hs
+    · rename_i cf c hcf hc
+      split at hs
+      · split at hs
+        · split at hs
+          · rename_i rinr _ _
+            simp at hs; subst hs
+            have : Cur (waitSample s rinr).1 := by simp only [waitSample]; exact cur_normCtx h
+            exact this.frame rfl rfl rfl rfl rfl
+          · cases hs
+        · split at hs
+          · cases hs
+          · split at hs
+            · rename_i r hr
+              simp at hs; subst hs
+              exact (cur_apiCS h ha cf _ r hr).frame rfl rfl rfl rfl rfl
+            · cases hs
+      · cases hs
+    · cases hs
+  | ret a r =>
+    simp only [step, stepI] at hs
+    split at hs
+    · split at hs
+      · simp at hs; subst hs; exact h.frame rfl rfl rfl rfl rfl
+      · split at hs
+        · simp at hs; subst hs; exact h.frame rfl rfl rfl rfl rfl
+        · cases hs
+    · cases hs
+  | wake a =>
+    simp only [step, stepI] at hs
+    split at hs
+    · split at hs
+      · split at hs
+        · simp at hs; subst hs; exact h.frame rfl rfl rfl rfl rfl
+        · cases hs
+      · cases hs
+    · cases hs
+  | wctx a =>
+    simp only [step, stepI] at hs
+    split at hs
+    · split at hs
+      · split at hs
+        · simp at hs; subst hs; exact h.frame rfl rfl rfl rfl rfl
+        · cases hs
+      · cases hs
+    · cases hs
+  | envCancel c =>
+    simp only [step, stepI] at hs
+    split at hs
+    · simp at hs; subst hs; exact cur_envCancel h c
+    · cases hs
+  | envCancelW a =>
+    simp only [step, stepI] at hs
+    split at hs
+    · split at hs
+      · simp at hs; subst hs; exact h.frame rfl rfl rfl rfl rfl
+      all_goals cases hs
+    · cases hs
+  | giveUp n =>
+    simp only [step, stepI] at hs
+    split at hs
+    · rename_i x hx
+      split at hs
+      · split at hs
+        · simp at hs; subst hs; exact cur_setInst h n x _ hx rfl id
+        · simp at hs; subst hs; exact cur_setInst h n x _ hx rfl id
+      · cases hs
+    · cases hs
+  | drained n =>
+    simp only [step, stepI] at hs
+    split at hs
+    · rename_i x hx
+      split at hs
+      · simp at hs; subst hs; exact cur_setInst h n x _ hx rfl id
+      · cases hs
+    · cases hs
+  | cbin k n f arg root =>
+    simp only [step, stepI] at hs
+    split at hs
+    · rename_i x hx
+      split at hs
+      · split at hs
+        · simp at hs; subst hs
+          exact (cur_setInst h n x { x with st := .running } hx rfl id).frame rfl rfl rfl rfl rfl
+        · cases hs
+      · cases hs
+    · cases hs
+  | cbout k o =>
+    simp only [step, stepI] at hs
+    split at hs
+    · rename_i n hn
+      split at hs
+      · rename_i x hx
+        split at hs
+        · simp at hs; subst hs; exact cur_setInst h n x _ hx rfl id
+        · cases hs
+      · cases hs
+    · cases hs
+  | closeExit n =>
+    simp only [step, stepI] at hs
+    split at hs
+    · rename_i x hx
+      split at hs
+      · simp at hs; subst hs; exact cur_setInst h n x _ hx rfl (fun _ => rfl)
+      · cases hs
+    · cases hs
+  | record n dur =>
+    simp only [step, stepI] at hs
+    split at hs
+    · rename_i cf x _ hx
+      split at hs
+      · exact cur_recordCS h cf n x dur hx hs
+      · cases hs
+    · cases hs
+  | emit o =>
+    simp only [step, stepI] at hs
+    split at hs
+    · split at hs
+      · simp at hs; subst hs; exact h.frame rfl rfl rfl rfl rfl
+      · cases hs
+    · cases hs
+  | fire t =>
+    simp only [step, stepI] at hs
+    split at hs
+    · split at hs
+      · simp at hs; subst hs; exact h.frame rfl rfl rfl rfl rfl
+      · cases hs
+    · cases hs
+  | timerCS t =>
+    simp only [step, stepI] at hs
+    split at hs
+    · rename_i tm htm
+      split at hs
+      · simp at hs; subst hs
+        exact cur_timerBody (s := { s with timers := s.timers.set t { tm with st := .dead } })
+          (h.frame rfl rfl rfl rfl rfl) (ha.of_eq rfl (InstsExt.of_eq rfl)) tm.rid
+      · cases hs
+    · cases hs
+  | probeCtx k b =>
+    simp only [step, stepI] at hs
+    split at hs
+    · split at hs
+      · simp at hs; subst hs; exact h
+      · cases hs
+    · cases hs
+  | probeW a b =>
+    simp only [step, stepI] at hs
+    split at hs
+    · split at hs
+      · split at hs
+        · simp at hs; subst hs; exact h
+        · cases hs
+      · cases hs
+    · cases hs
+  | quiesce p r =>
+    simp only [step] at hs
+    split at hs
+    · simp at hs; subst hs; exact h
+    · cases hs
+
+theorem cur_run (s s' : St) (es : List Ev) (h : Cur s) (ha : AllRec s) (hr : model.run s es = some s') :
+    Cur s' := by
+  induction es generalizing s with
+  | nil => simp [OLTS.run] at hr; subst hr; exact h
+  | cons e es ih =>
+    simp only [OLTS.run] at hr
+    cases hst : model.step s e with
+    | none => simp [hst] at hr
+    | some s1 =>
+      simp [hst] at hr
+      exact ih s1 (step_cur s s1 e h ha hst) (step_ok s s1 e ha hst).1 hr
 
 end UtilModel.Routine
